@@ -38,9 +38,6 @@ ServerAllowed ==
 
 Flat0 == FlatAn(e.msgs)
 Mid0 == Inner(Flat0)
-\* (looked for only when there are any: quadratic)
-Dups == IF Cardinality(Range(Mid0)) = Len(Mid0) THEN {}
-        ELSE {Mid0[i] : i \in {j \in DOMAIN Mid0 : \E k \in DOMAIN Mid0 : k < j /\ Mid0[k] = Mid0[j]}}
 Few(S) == IF Cardinality(S) <= 12 THEN S ELSE {}
 ServerReport ==
     [case |-> e.case, line |-> l, kind |-> "server", duty |-> SDuty, obs |-> e.obs,
@@ -50,7 +47,7 @@ ServerReport ==
      nmsgs |-> Len(e.msgs), rcs |-> [i \in DOMAIN e.msgs |-> e.msgs[i].rc], lens |-> [i \in DOMAIN e.msgs |-> e.msgs[i].len],
      answers |-> Len(Flat0), zoneRecords |-> Cardinality(TZone.rest), zoneSigs |-> Cardinality(TZone.sigs),
      missingRecords |-> Cardinality(TZone.rest \ Range(Flat0)), missingSigs |-> Cardinality(TZone.sigs \ Range(Flat0)),
-     dups |-> Few(Dups), foreignSent |-> Few(Range(Flat0) \cap Foreign)]
+     duplicates |-> Len(Mid0) - Cardinality(Range(Mid0)), foreignSent |-> Few(Range(Flat0) \cap Foreign)]
 
 (* ---- client ---- *)
 CV == ClientVerdict(e.script, e.mode, e.have)
